@@ -426,8 +426,9 @@ def install_gmm_stress():
 
     def fit(self, X, y=None):
         n = PLAN.get("gmm_max_iter")
-        if n:
-            self.max_iter = int(n)
+        if n and not getattr(self, "_ticcmon_capped", False):
+            self.max_iter = int(n)             # the first fit of this mixture object only
+            self._ticcmon_capped = True
         r = orig(self, X, y)
         count("mixture_fits")
         if not getattr(self, "converged_", True):
